@@ -126,6 +126,7 @@ fn default_traffic(rng: &mut Rng, total: usize, max_len: usize, stop_ns: u64) ->
         extra_flushes: *rng.pick(&[0u64, 0, 1, 3]),
         probes_after_ns: None,
         script: Vec::new(),
+        pattern: 0,
     }
 }
 
@@ -188,6 +189,21 @@ pub fn gen_ideal(seed: u64, params: &Params) -> Scenario {
     s.ideal = true;
     s.link = [ideal_link(&mut rng), ideal_link(&mut rng)];
     s.pauses = [Vec::new(), Vec::new()];
+    if rng.chance(0.25) {
+        // runs of small non-Reliable packets behind one Reliable packet: parent leads reach the
+        // boundaries of the datagram header encodings (127/128, 255/256)
+        s.window = 4096;
+        for t in s.traffic.iter_mut() {
+            if t.total > 0 {
+                t.pattern = 1;
+                t.amb_p = 0.0;
+                t.total = t.total.max(600);
+            }
+        }
+        for c in s.cfg.iter_mut() {
+            c.rx_alloc = c.rx_alloc.max(100_000);
+        }
+    }
     // bursty submission
     for t in s.traffic.iter_mut() {
         if t.total > 0 {
@@ -218,6 +234,24 @@ pub fn gen_frag(seed: u64, params: &Params) -> Scenario {
     // rates that cut packets across several flushes
     for c in s.cfg.iter_mut() {
         c.max_send_rate = *rng.pick(&[50_000u32, 200_000, 1_000_000, 10_000_000]);
+    }
+    if rng.chance(0.3) {
+        // same-shaped packets (one channel, one fragment count) cycling a small window many times,
+        // mostly unreliable, so that half-assembled packets are skipped and their slots reused
+        s.window = *rng.pick(&[4u32, 8, 16, 32]);
+        for t in s.traffic.iter_mut() {
+            if t.total > 0 {
+                t.pattern = 2;
+                t.mode_w = *rng.pick(&[[1, 3, 1, 0], [0, 1, 0, 0], [1, 2, 1, 1]]);
+                t.max_len = 6000;
+                t.total = params.u64("frag_packets", 60) as usize * 4;
+                t.per_step_p = 1.0;
+                t.burst = (1, 6);
+            }
+        }
+        for c in s.cfg.iter_mut() {
+            c.max_send_rate = *rng.pick(&[200_000u32, 1_000_000]);
+        }
     }
     s
 }
